@@ -1,5 +1,6 @@
 import Hv.Driver.Core
 import Hv.HyperV
+import Hv.HyperVEnc
 namespace Hv.Driver
 open Hv Hv.HyperV
 
@@ -25,11 +26,140 @@ def hvRes (r : Except Err Tree) : String :=
   | .error e => s!"E:{e}"
   | .ok t => "ok:" ++ ",".intercalate (hvFlatten "" t)
 
+/-! ### `hyperv.enc`: a description in tokens → the writer's bytes and the well-formedness verdicts
+
+    tokens: `<size>` then sections, each introduced by a letter:
+      `H` 9 numbers (file header; twice) · `L <off> <ck> <n> <rest hex|->` · `O <off> <count>` then count × `<typ> <ck> <offset> <size> <alloc>`
+      · `K <off> <idx> <seq> <ck> <tail: x = none | hex | ->` `<count>` then count × `<typ> <pidx> <poff> <ck> <ins> <doff> <body hex|->`
+      · `B <off> <hex|->` · `T` then the root children as a forest in prefix form: `<count>` then per child `<key hex|->` and
+        `N <count> …` | `I <int>` | `U <nat>` | `D <bits>` | `S <utf-16-le hex|->` | `Y <hex|->` | `B <0|1>` -/
+
+abbrev TokP := StateT (List String) Option
+
+def tok : TokP String := fun ts => match ts with | [] => none | t :: r => some (t, r)
+def tokNat : TokP Nat := do let t ← tok; match t.toNat? with | some n => pure n | none => failure
+def tokHex : TokP Bytes := do
+  let t ← tok
+  if t = "-" then pure [] else match parseHex t with | some b => pure b.toList | none => failure
+
+def rep {α : Type} (p : TokP α) : Nat → TokP (List α)
+  | 0 => pure []
+  | n + 1 => do let a ← p; let r ← rep p n; pure (a :: r)
+
+def pHdr : TokP HdrSpec := do
+  let a ← tokNat; let b ← tokNat; let c ← tokNat; let d ← tokNat; let e ← tokNat; let f ← tokNat; let g ← tokNat; let h ← tokNat; let i ← tokNat
+  pure ⟨a, b, c, d, e, f, g, h, i⟩
+
+def pObj : TokP ObjSpec := do
+  let a ← tokNat; let b ← tokNat; let c ← tokNat; let d ← tokNat; let e ← tokNat
+  pure ⟨a, b, c, d, e⟩
+
+def pSEntry : TokP SEntry := do
+  let a ← tokNat; let b ← tokNat; let c ← tokNat; let d ← tokNat; let e ← tokNat; let f ← tokNat; let body ← tokHex
+  pure { typ := a, pidx := b, poff := c, ck := d, ins := e, doff := f, body := body }
+
+def unitsOfBytes : Bytes → List Nat
+  | a :: b :: r => (a.toNat + 256 * b.toNat) :: unitsOfBytes r
+  | _ => []
+
+partial def pTree : TokP Tree := do
+  let t ← tok
+  match t with
+  | "N" => do
+    let n ← tokNat
+    let cs ← rep (do let k ← tokHex; let c ← pTree; pure (k, c)) n
+    pure (.node cs)
+  | "I" => do let v ← tok; match parseInt v with | some i => pure (.leaf (.int i)) | none => failure
+  | "U" => do let v ← tokNat; pure (.leaf (.uint v))
+  | "D" => do let v ← tokNat; pure (.leaf (.double v))
+  | "S" => do let b ← tokHex; pure (.leaf (.str (unitsOfBytes b)))
+  | "Y" => do let b ← tokHex; pure (.leaf (.bytes b))
+  | "B" => do let v ← tokNat; pure (.leaf (.bool (v ≠ 0)))
+  | _ => failure
+
+partial def pSections (d : Desc) (nh : Nat) : TokP Desc := do
+  let ts ← get
+  match ts with
+  | [] => pure d
+  | _ => do
+    let t ← tok
+    match t with
+    | "H" => do
+      let h ← pHdr
+      pSections (if nh = 0 then { d with phys := { d.phys with h1 := h } } else { d with phys := { d.phys with h2 := h } }) (nh + 1)
+    | "L" => do
+      let off ← tokNat; let ck ← tokNat; let n ← tokNat; let rest ← tokHex
+      pSections { d with phys := { d.phys with logs := d.phys.logs ++ [⟨off, ck, n, rest⟩] } } nh
+    | "O" => do
+      let off ← tokNat; let n ← tokNat; let es ← rep pObj n
+      pSections { d with phys := { d.phys with ots := d.phys.ots ++ [⟨off, es⟩] } } nh
+    | "K" => do
+      let off ← tokNat; let idx ← tokNat; let seq ← tokNat; let ck ← tokNat
+      let tl ← tok
+      let tail : Option Bytes ← (if tl = "x" then pure none else if tl = "-" then pure (some []) else
+        match parseHex tl with | some b => pure (some b.toList) | none => failure)
+      let n ← tokNat; let es ← rep pSEntry n
+      pSections { d with phys := { d.phys with kts := d.phys.kts ++ [⟨off, idx, seq, ck, es, tail⟩] } } nh
+    | "B" => do
+      let off ← tokNat; let b ← tokHex
+      pSections { d with phys := { d.phys with blobs := d.phys.blobs ++ [(off, b)] } } nh
+    | "T" => do
+      let n ← tokNat
+      let cs ← rep (do let k ← tokHex; let c ← pTree; pure (k, c)) n
+      pSections { d with cs := cs } nh
+    | _ => failure
+
+/-- the children of every node reordered into linking order (the order of the entries of the tables in use); children the
+    layout does not hold are kept at the end, so a wrong description stays wrong. Driver-side convenience only: `Desc.WF`
+    judges the result. -/
+partial def normForest (all : List (Nat × Entry)) (ref : Option Ref) (cs : List (Bytes × Tree)) : List (Bytes × Tree) :=
+  let found := (all.filter (fun x => pref x.2 = ref)).filterMap fun ie =>
+    match cs.find? (fun kt => kt.1 == storedKey ie.2) with
+    | some (k, .node cs') => some (k, Tree.node (normForest all (some (ie.1, ie.2.offset)) cs'))
+    | some (k, t) => some (k, t)
+    | none => none
+  found ++ cs.filter (fun kt => ! found.any (fun f => f.1 == kt.1))
+
+/-- the file of the description as an array: zero-filled, segments written last to first (the first segment covering a
+    position decides, as in `segByte`) -/
+def physArray (d : Phys) : ByteArray := Id.run do
+  let mut a : ByteArray := ByteArray.mk (Array.replicate d.size 0)
+  for (o, b) in d.segs.reverse do
+    let mut p := o
+    for x in b do
+      if p < a.size then a := a.set! p x
+      p := p + 1
+  return a
+
+/-- `segByte` agrees with the array at the first / last byte of every segment, just outside, and at a few fixed positions -/
+def physSampleOk (d : Phys) (a : ByteArray) : Bool :=
+  let ps := d.segs.flatMap (fun s => [s.1, s.1 + 1, s.1 + s.2.length - 1, s.1 + s.2.length, s.1 - 1, s.1 + s.2.length / 2]) ++ [0, 45, 46, 4096, 8191, d.size - 1]
+  ps.all fun p => p ≥ a.size || a.get! p == segByte d.segs p
+
+def hvEnc (toks : List String) : String :=
+  match toks with
+  | [] => "bad-desc"
+  | sz :: rest =>
+    match sz.toNat?, (pSections default 0).run rest with
+    | some size, some (d0, _) =>
+      let d1 : Desc := { d0 with phys := { d0.phys with size := size } }
+      let d : Desc := { d1 with cs := normForest (actEntries d1.act) none d1.cs }
+      let a := physArray d.phys
+      let b := a.toList
+      let tabs := ",".intercalate (d.phys.regTables.map fun t => s!"{t.index}.{t.seq}.{t.entries.length}")
+      let fos := ",".intercalate (d.phys.regFos.map fun p => s!"{p.1}.{p.2}")
+      let small := size ≤ 131072 && d.phys.segs.all (fun s => s.2.length ≤ 2048)
+      s!"ok P{if decide d.phys.WF then 1 else 0} D{if d.wfb then 1 else 0} R{if d.rootsAreNodes then 1 else 0} " ++
+        s!"S{if physSampleOk d.phys a then 1 else 0} {b.length}.{(crc32 b).toNat} T[{tabs}] F[{fos}] " ++
+        (if small then (if hvRes (asDict d.file) == hvRes (.ok d.tree) then "A1" else "A0") ++ (if hvRes (typedTree d.file) == hvRes (.ok d.tree) then "Y1" else "Y0") else "A-Y-")
+    | _, _ => "bad-desc"
+
 def hypervCmd (st : St) : List String → String
   | ["hyperv.tree", id] =>
     match st.file? id with
     | none => "bad-file"
     | some f => hvRes (asDict f) ++ " " ++ hvRes (typedTree f)
+  | "hyperv.enc" :: toks => hvEnc toks
   | _ => "bad-cmd"
 
 end Hv.Driver
